@@ -365,15 +365,13 @@ def interiorKnots (r : RawBs) (mode : Mode) (lower upper : Rat)
   match r.df with
   | none => .ok given
   | some df =>
-    if df = 0 then .ok given
+    let nknots : Int := df - r.degree - (if r.intercept then 1 else 0)
+    if nknots < 0 then .error .dfTooSmallBs
     else
-      let nknots : Int := df - r.degree - (if r.intercept then 1 else 0)
-      if nknots < 0 then .error .dfTooSmallBs
-      else
-        let s := BSpline.knotsSample mode lower upper r.x
-        if s.2 = 0 then .error .emptySample
-        else if s.1.isEmpty then .error .noData
-        else .ok (quant s.1 nknots.toNat)
+      let s := BSpline.knotsSample mode lower upper r.x
+      if s.2 = 0 then .error .emptySample
+      else if s.1.isEmpty then .error .noData
+      else .ok (quant s.1 nknots.toNat)
 
 def RawBs.args (r : RawBs) (mode : Mode) : BSpline.Args :=
   { df := r.df, knots := r.knots.map sort, degree := r.degree.toNat, intercept := r.intercept,
